@@ -115,25 +115,64 @@ def r05b(model, ctx):
                   f"{tname} must record the expression's shape for from_bits conversion", f"{ASYNC}:{ft.lineno}")
 
 
+_ENTRY = """
+if lhs_start >= len(lhs):
+    return
+if lhs_start + rhs_len > len(lhs):
+    rhs_len = len(lhs) - lhs_start
+"""
+_CLAMP = """
+if lhs_stop > len(lhs):
+    lhs_stop = len(lhs)
+if lhs_start >= len(lhs):
+    return
+"""
+_SIGNAL_BODY = """
+slot = sim.get_signal(lhs)
+if sim.slots[slot].is_comb:
+    raise DriverConflict()
+value = sim.slots[slot].next
+mask = (1 << lhs_stop) - (1 << lhs_start)
+value &= ~mask
+value |= (rhs << lhs_start) & mask
+value &= (1 << len(lhs)) - 1
+if lhs._signed and (value & (1 << (len(lhs) - 1))):
+    value |= -1 << (len(lhs) - 1)
+sim.slots[slot].update(value)
+"""
+_ROW_BODY = """
+slot = sim.get_memory(lhs._memory)
+mask = (1 << lhs_stop) - (1 << lhs_start)
+sim.slots[slot].write(lhs._index, rhs << lhs_start, mask)
+"""
+# the window is clipped on entry; the per-branch clamp that repeats it is redundant and may or may not be present
+REF_ASSIGN_SIGNAL = [_ENTRY + "lhs_stop = lhs_start + rhs_len\n" + _CLAMP + _SIGNAL_BODY,
+                     _ENTRY + "lhs_stop = lhs_start + rhs_len\n" + _SIGNAL_BODY]
+REF_ASSIGN_ROW = [_ENTRY + "lhs_stop = lhs_start + rhs_len\n" + _CLAMP + _ROW_BODY,
+                  _ENTRY + "lhs_stop = lhs_start + rhs_len\n" + _ROW_BODY]
+
+
+def assign_leaf_paths(model, cls):
+    """_eval_assign_inner specialised for a target of class `cls` (module-level helpers expanded)"""
+    from ..engine import refsem
+    fn = model.func(f"{PYEVAL}::_eval_assign_inner")
+    inline = refsem.inline_table(model, PYEVAL, None, exclude=("_eval_assign_inner", "eval_value", "eval_assign"))
+    body = [b for b in fn.body if not (isinstance(b, ast.Expr) and isinstance(b.value, ast.Constant))]
+    return fn, run_paths(body, inline=inline, fold=refsem.class_fold("lhs", cls), max_paths=2000, depth=3)
+
+
+def compare_assign_leaf(model, ctx, rule, construct, cls, refs, fact, why):
+    from ..engine import refsem
+    fn, paths = assign_leaf_paths(model, cls)
+    refsem.compare(ctx, rule, construct, f"{PYEVAL}:{fn.lineno}", f"_eval_assign_inner ({cls} target)", paths, refs,
+                   fact=fact, why=why)
+
+
 def r05c(model, ctx):
-    fn, lvs = interp.leaves(model, f"{PYEVAL}::_eval_assign_inner")
-    lf = select_leaf(lvs, {"class": "Signal"})
-    need(handled(lf), "_eval_assign_inner: no Signal branch")
-    mod_fn = ast.FunctionDef(name="leaf", args=fn.args, body=lf.body, decorator_list=[], lineno=lf.lineno,
-                             col_offset=0)
-    g = CFG(mod_fn, inline_closures=False)
-    upd = g.nodes_with(lambda n: isinstance(n, ast.Call) and unparse(n.func).endswith(".update"))
-    nxt = g.nodes_with(lambda n: isinstance(n, ast.Attribute) and n.attr == "next")
-    guards = [nid for nid in g.nodes() if isinstance(g.stmt[nid], ast.If) and unparse(g.stmt[nid].test).endswith(".is_comb")]
-    ok = len(guards) == 1 and bool(upd)
-    if ok:
-        gi = g.stmt[guards[0]]
-        ok = len(gi.body) == 1 and isinstance(gi.body[0], ast.Raise) and "DriverConflict" in unparse(gi.body[0]) \
-            and all(g.dominates({guards[0]}, u) for u in upd + nxt)
-    ctx.check(ok, "R-05c", "_eval_assign_inner:Signal",
-              "`if slot.is_comb: raise DriverConflict` dominates every access to next/update",
-              "a testbench write to a combinationally driven signal must be refused (raise DriverConflict) before the "
-              "signal's `next` value is read or updated", f"{PYEVAL}:{lf.lineno}")
+    compare_assign_leaf(model, ctx, "R-05c", "_eval_assign_inner:Signal", "Signal", REF_ASSIGN_SIGNAL,
+                        "`if slot.is_comb: raise DriverConflict` precedes every access to next/update; merge into next under the window mask",
+                        "A testbench write to a combinationally driven signal must be refused (raise DriverConflict) before the "
+                        "signal's `next` value is read or updated; the write merges (rhs << start) into `next` under the window mask.")
 
 
 def r05d(model, ctx):
@@ -195,17 +234,9 @@ def r05d(model, ctx):
               "assignment through a choice must stop after the first matching case (return after the recursive call)",
               f"{PYEVAL}:{lf.lineno}")
     # Row write
-    lf = select_leaf(lva, {"class": "_Row"})
-    paths = [p for p in run_paths(lf.body) if p.how == "fall"]
-    ok = False
-    for p in paths:
-        for e in p.effects:
-            m = pmatch("sim.slots[sim.get_memory(lhs._memory)].write(lhs._index, rhs << lhs_start, _V_M)", e)
-            if m is not None and pmatch("(1 << _V_HI) - (1 << lhs_start)", m["_V_M"]) is not None:
-                ok = True
-    ctx.check(ok, R, "_eval_assign_inner:MemoryData._Row", "write(index, rhs << start, (1<<stop)-(1<<start))",
-              "a memory row write must go through slot.write(index, rhs << lhs_start, mask) with the window mask",
-              f"{PYEVAL}:{lf.lineno}")
+    compare_assign_leaf(model, ctx, R, "_eval_assign_inner:MemoryData._Row", "MemoryData._Row", REF_ASSIGN_ROW,
+                        "write(index, rhs << start, (1<<stop)-(1<<start))",
+                        "A memory row write must go through slot.write(index, rhs << lhs_start, mask) with the window mask.")
 
 
 def r05e(model, ctx):
